@@ -94,6 +94,11 @@ impl AccessList {
     pub fn len(&self) -> usize {
         self.0.len()
     }
+
+    #[cfg(all(greatest_ape_aquatic_verif, kani))]
+    pub fn insert_raw_for_verif(&mut self, info_hash: [u8; 20]) {
+        self.0.insert(info_hash);
+    }
 }
 
 pub trait AccessListQuery {
